@@ -430,6 +430,8 @@ def run(res):
         tags[meta[i][1]] = tags.get(meta[i][1], 0) + 1
     res.coverage["accepted_by_probe_kind"] = tags
     res.coverage["model_lines"] = modelled
+    res.coverage["model_diffs"] = len(diffs)
+    res.coverage["model_diff_samples"] = [{"op": ops[i], "impl": impl[i], "model": model[i]} for i in diffs[:8]]
     res.coverage["input_distribution"] = dict(sorted(kinds.items(), key=lambda x: -x[1])[:120])
     res.coverage["traces_validated_against_impl"] = modelled
     res.coverage["exhaustive"] = False
